@@ -184,6 +184,19 @@ example : printFinite false false (dLit "-0.5") = "-0.5".toList ∧ printFinite 
     printFinite false true (dLit "0.99999999999") = "1".toList ∧
     printFinite false false (1/2048) = "0.0004882812".toList := by decide +kernel
 
+/-- **Shape of the printed text**, both styles: plain decimal notation — optional `-`, digits, optional
+    `.` followed by 1–10 digits the last of which is not `0`; no exponent, no `+`, at least one digit,
+    and never a minus sign in front of an all-zero text (`-0`, `-0.0`, `-.0`). -/
+theorem C07_print_shape (compressed : Bool) (x : Rat) :
+    shapeOK (printFinite false compressed x) = true := printFinite_shape compressed x
+example : shapeOK "-0".toList = false ∧ shapeOK "1e3".toList = false ∧ shapeOK "+1".toList = false ∧
+    shapeOK "0.50".toList = false ∧ shapeOK "0.12345678901".toList = false ∧ shapeOK "-.5".toList = true := by decide
+
+/-- NOT PROVED (kept visible; evaluated by the driver on every printed text of grass and of the model):
+    no superfluous leading zero — expanded keeps exactly one `0` before the point, compressed none. -/
+def C07_print_lead_full : Prop :=
+  ∀ (compressed : Bool) (x : Rat), leadOK compressed (printFinite false compressed x) = true
+
 /-- **Re-reading, characterised exactly** (exact arithmetic): the re-read number is `==` to `x`
     iff `x` lies in the 10⁻¹¹ bucket of its own 10-digit rounding, i.e. iff the bucket of `x` is ten
     times its scaled 10-digit value.  For every other `x` — those whose 11th fractional digit does
